@@ -25,7 +25,7 @@ def run(c):
     b = c.go_build("c14corr")
     if not b:
         return
-    n = 420 if c.tier == "quick" else 6000
+    n = 420 if c.tier == "quick" else 20000
     rc, out = c.run([b, "-out", c.build, "-seed", str(c.seed), "-n", str(n)], timeout=2400)
     if rc != 0:
         c.break_("corr", "c14corr harness run failed", out)
